@@ -16,7 +16,8 @@ CASE_TIMEOUT = 150
 BATCH_SIZE = {'quick': 3, 'thorough': 10}
 REQUIRED_COUNTERS = ['transformed_runs', 'cell_records_joined',
                      'duplicate_rows_compared']
-RULE = ('case = generated world (factor 1) + 7 (quick) / 11 (thorough) '
+RULE = ('case = generated world (factor 1; two cells without a single zero; '
+        'every other CSR / CSC file with unsorted minor indices) + 8 (quick) / 12 (thorough) '
         'transformed queries: row permutation, sub-sample, embedding among '
         'foreign cells (ordinary, and 1e17 / 1e9 times brighter than the '
         'cells under observation), duplication under new ids, chunk size / worker '
@@ -47,9 +48,13 @@ def gen_cases(tier, seed):
         c['separable'] = bool(rng.random() < 0.5)
         c['noise'] = float(rng.choice([1.0, 3.0]))
         c['dup_rows'] = True
+        c['full_cells'] = 2
+        if i % 2 == 0:
+            c['encoding'] = ['csr', 'csc'][(i // 2) % 2]
+            c['unsorted_indices'] = int(rng.integers(1, 2 ** 31))
         c['with_csv'] = False
         c['with_hdf5'] = False
-        c['n_transforms'] = 7 if tier == 'quick' else 11
+        c['n_transforms'] = 8 if tier == 'quick' else 12
         if i % 6 == 0:
             c['x_dtype'] = 'float32'
         c['marker_kmin'] = 4
@@ -121,7 +126,7 @@ def run_case(spec, work):
                 for rec in r['json']['results'][:1] for lv in model.hierarchy)
 
     transforms = ['permute', 'subsample', 'embed', 'duplicate', 'chunking',
-                  'encoding', 'embed_bright', 'permute', 'embed',
+                  'encoding', 'embed_bright', 'chunk1', 'permute', 'embed',
                   'subsample', 'chunking']
     for ti in range(spec['n_transforms']):
         kind = transforms[ti % len(transforms)]
@@ -160,6 +165,10 @@ def run_case(spec, work):
             ids2 = ids + [f'{ids[s]}__dup{j}' for j, s in enumerate(src)]
             p = rng.permutation(len(ids2))
             X2, ids2 = X2[p], [ids2[i] for i in p]
+        elif kind == 'chunk1':
+            # every cell alone in its chunk
+            X2, ids2 = None, None
+            kw['ta_updates'] = {'chunk_size': 1, 'n_processors': 3}
         elif kind == 'chunking':
             X2, ids2 = None, None
             kw['ta_updates'] = {
